@@ -276,12 +276,33 @@ pub fn run(args: &Args) {
 	let mut next: u64 = 0;
 
 	// ---------------- Part A: container readers and converter wrappers
-	let n_a = args.n(5, 30);
+	let n_a = args.n(6, 31);
 	for wi in 0..n_a {
 		let dense = wi == 0;
 		// world 1: "ocean" – every tile of levels 0..3 present, all byte-identical (< 1000 bytes)
 		let ocean = wi == 1;
-		let coords: Vec<Key> = if ocean {
+		// world 2: 4x4 tiles of ~60 KB (incompressible enough to stay > 32 KiB under gzip) in one block:
+		// sub-boxes that skip tiles make gaps > 32 KiB between consecutive requested tiles → chunk splits.
+		// thorough, world 6: 70 tiles of 1 MiB in one block (> 64 MiB → split by size)
+		let big = wi == 2;
+		let huge = args.thorough() && wi == 6;
+		let coords: Vec<Key> = if big {
+			let mut v = vec![];
+			for y in 5..9u32 {
+				for x in 3..7u32 {
+					v.push((4u8, x, y));
+				}
+			}
+			v
+		} else if huge {
+			let mut v = vec![];
+			for y in 10..17u32 {
+				for x in 20..30u32 {
+					v.push((6u8, x, y));
+				}
+			}
+			v
+		} else if ocean {
 			let mut v = vec![];
 			for z in 0..=3u8 {
 				for y in 0..(1u32 << z) {
@@ -310,15 +331,30 @@ pub fn run(args: &Args) {
 				gen_coords(&mut rng, 90, gaps)
 			}
 		};
-		let (fmt, comp) = if dense { (1, 1) } else if ocean { (1, 0) } else { pick_fmt_comp(&mut rng) };
+		let (fmt, comp) = if dense || big { (1, 1) } else if ocean || huge { (1, 0) } else { pick_fmt_comp(&mut rng) };
 		// payload identity pattern: see `assign_ids_style`
-		let style = if dense { 0 } else if ocean { 1 } else if wi < 5 { [0, 1, 4, 2, 5][wi] } else { [0, 0, 0, 1, 2, 2, 3, 4, 4, 5][rng.below(10) as usize] };
+		let style = if dense || big || huge { 0 } else if ocean { 1 } else if wi < 6 { [0, 1, 0, 4, 2, 5][wi] } else { [0, 0, 0, 1, 2, 2, 3, 4, 4, 5][rng.below(10) as usize] };
 		out.count(&format!("A_payload_style_{style}"));
-		let tiles = assign_ids_style(&mut rng, &coords, &mut next, style);
+		let tiles = if big || huge {
+			// distinct large payloads: ids that are multiples of 37 (60 KB) resp. 1009 (1 MiB)
+			let m = if huge { 1009 } else { 37 };
+			coords.iter().enumerate().map(|(i, k)| (*k, m * (1 + i as u64) * if huge { 1 } else { 1010 })).collect()
+		} else {
+			assign_ids_style(&mut rng, &coords, &mut next, style)
+		};
 		count_dups(&mut out, &tiles);
+		if big {
+			out.count("A_world_big_60KB_tiles");
+		}
+		if huge {
+			out.count("A_world_huge_70x1MiB");
+		}
 		let mut kinds = vec!["mem", "versatiles", "pmtiles", "tar", "dir"];
 		if mbtiles_ok(fmt, comp) {
 			kinds.push("mbtiles");
+		}
+		if huge {
+			kinds = vec!["versatiles"];
 		}
 		for kind in kinds {
 			let spec = SrcSpec { fmt, comp, kind: kind.to_string(), tiles: tiles.clone() };
@@ -332,6 +368,40 @@ pub fn run(args: &Args) {
 				continue;
 			}
 			let levels = ask_levels(&mut rng, &specs);
+			if big || huge {
+				// every sub-box of the tile region (big) / the full box, single columns and rows, cut boxes (huge)
+				let (z, x0, y0, x1, y1) = if big { (4u8, 3u32, 5u32, 6u32, 8u32) } else { (6u8, 20, 10, 29, 16) };
+				let mut boxes = vec![];
+				if big {
+					for a in x0..=x1 {
+						for b in a..=x1 {
+							for c in y0..=y1 {
+								for d in c..=y1 {
+									boxes.push(TileBBox::new(z, a, c, b, d).unwrap());
+								}
+							}
+						}
+					}
+					boxes.push(TileBBox::new(z, 0, 0, 15, 15).unwrap());
+				} else {
+					boxes.push(TileBBox::new(z, 0, 0, 63, 63).unwrap());
+					boxes.push(TileBBox::new(z, 22, 10, 22, 16).unwrap());
+					boxes.push(TileBBox::new(z, 20, 12, 29, 12).unwrap());
+					boxes.push(TileBBox::new(z, 21, 11, 27, 15).unwrap());
+				}
+				run_in_world(&rt, &mut out, &mut id, &w, "C02", "S", "L0", &boxes_arg(&boxes));
+				if kind == "versatiles" && big {
+					reader_line(&rt, &mut out, &mut id, &w, "C02v", "S", &boxes_arg(&boxes));
+				}
+				if kind == "versatiles" && huge {
+					// the model materialises the chunk blobs as lists (64 MiB for the full box): thorough tier only
+					reader_line(&rt, &mut out, &mut id, &w, "C02v", "S", &boxes_arg(&boxes));
+				}
+				if huge {
+					w.cleanup();
+					continue;
+				}
+			}
 			for (z, present) in levels.iter() {
 				let boxes = gen_boxes(&mut rng, *z, present, if dense || ocean { 3 } else { 2 }, args.n(30, 60));
 				run_in_world(&rt, &mut out, &mut id, &w, "C02", "S", "L0", &boxes_arg(&boxes));
